@@ -58,6 +58,27 @@ def lemma_proba(timeout_ms):
         if isinstance(p.outcome, Unsup):
             out["status"] = "inconclusive"
             out["note"] = p.outcome.reason
+            # the region of keys this path is responsible for cannot be decided symbolically.  If it is delimited by the
+            # LENGTH of the key, keys of the lengths around the constants in the path condition are tried on the real
+            # function (a search, like the other concretisations: a hit is a replayed violation, a miss leaves exit 2)
+            lens = set()
+
+            def walk(t):
+                if z3.is_app(t) and t.decl().kind() in (z3.Z3_OP_LE, z3.Z3_OP_LT, z3.Z3_OP_GE, z3.Z3_OP_GT, z3.Z3_OP_EQ):
+                    a_, b_ = t.arg(0), t.arg(1)
+                    for x, y in ((a_, b_), (b_, a_)):
+                        if z3.is_int_value(y) and "Length" in str(x.decl() if z3.is_app(x) else x) or \
+                                (z3.is_int_value(y) and "str.len" in x.sexpr()):
+                            lens.add(y.as_long())
+                for c_ in t.children():
+                    walk(c_)
+            for c in p.conds:
+                walk(c)
+            lens = sorted(l for l in lens if 2 <= l <= 1 << 24)
+            if lens:
+                out["witnesses"].append({"kind": "proba_search", "key": enc("k"), "lengths": lens,
+                                         "why": "deterministic_proba leaves the encodable subset for keys delimited by length %s (%s)"
+                                                % (lens, p.outcome.reason)})
             continue
         r, m = common.check(tally, p.conds, timeout_ms)
         if r == "unsat":
